@@ -1,16 +1,16 @@
 CONSTANTS
-    Shape <- Shape4
+    Shape <- Shape5
     EpochOrderStrict = FALSE
     CacheSound = FALSE
     MaxAlter = 1
     TamperFields = {"prev", "epoch", "avk", "params", "msgEpoch", "nextAvk", "nextParams", "signedMsg", "sig", "kind", "genSig"}
-    ForgeEpochs = {1, 2, 3, 4}
-    Forge2Pars = {"p"}
-    ForgeKeys = {"H3", "H4", "A"}
+    ForgeEpochs = {1, 2, 3, 4, 5}
+    Forge2Pars = {"q"}
+    ForgeKeys = {"H2", "H3", "H4", "H5", "A"}
     ForgePars = {"p", "q"}
-    ForgeNextAvk = {"H4", "A"}
+    ForgeNextAvk = {"H3", "H4", "H5", "A"}
     ForgeNextPars = {"p", "q"}
     ForgeLevels = 2
 SPECIFICATION Spec
-INVARIANTS NoFollowingAccept
+INVARIANTS ChainSound Terminates GenPrint
 CHECK_DEADLOCK FALSE
